@@ -81,8 +81,142 @@ def run(ctx, driver):
                 rec.disagree("pool-pass", dict(payload, why=d, model=ans))
         if len(rec.samples) < 3 and impl["closing"] and impl["created"]:
             rec.samples.append({"case": c, "impl": payload["impl"], "model": ans})
-    return rec.finish("C09/B1 pool pass", "as C04 (random stub pools, one pass each); oracles: idle bound, expired/closed never kept or handed "
+    run_scenarios(ctx, rec)
+    return rec.finish("C09/B1 pool pass + B2 keep-alive histories", "as C04 (random stub pools, one pass each); oracles: idle bound, expired/closed never kept or handed "
                       "out, every closed connection has a reason; distinct = distinct cases")
+
+
+def gen_scenario(rng):
+    cfg = {"max_connections": rng.choice([1, 2, 3]), "max_keepalive_connections": rng.choice([0, 1, 2, None]),
+           "keepalive_expiry": rng.choice([0, 1, 5, None]), "h2": rng.random() < 0.3}
+    ops = []
+    nopen = 0
+    for _ in range(rng.randint(3, 12)):
+        k = rng.choice(["req", "req", "req", "open", "close", "tick", "srvclose"])
+        if k in ("req", "open"):
+            if k == "open":
+                if nopen >= cfg["max_connections"]:
+                    k = "req"
+                else:
+                    nopen += 1
+            ops.append((k, rng.randint(0, 2)))
+        elif k == "close":
+            ops.append(("read_close" if rng.random() < 0.7 else "close", rng.randint(0, 3)))
+        elif k == "tick":
+            ops.append(("tick", rng.choice([0.5, 1, 2, 6])))
+        else:
+            ops.append(("srvclose", rng.randint(0, 2)))
+    return cfg, ops
+
+
+def run_scenario(cfg, ops):
+    """-> list of per-op records with the facts the oracles need"""
+    import scen
+    import servers
+    import simnet
+    w = scen.World(max_connections=cfg["max_connections"], max_keepalive_connections=cfg["max_keepalive_connections"],
+                   keepalive_expiry=cfg["keepalive_expiry"], http2=cfg["h2"], scheme="https" if cfg["h2"] else "http")
+    eff_mk = cfg["max_connections"] if cfg["max_keepalive_connections"] is None else min(cfg["max_connections"], cfg["max_keepalive_connections"])
+    trace = []
+    idle_since = {}       # socket id -> time it became idle
+    with servers.patched_clock(w.clock):
+        with w.pool:
+            pending_opens = 0
+            for op in ops:
+                before = w.snapshot()
+                socks_before = {s.id: s for s in w.net.sockets if s.open}
+                # which sockets are idle / expired / server-closed right now (harness-side knowledge)
+                idle_socks = {}
+                for c in w.pool.connections:
+                    inner = getattr(c, "_connection", None)
+                    if inner is not None and c.is_idle():
+                        sock = inner._network_stream.get_extra_info("sim_socket")
+                        exp = cfg["keepalive_expiry"] is not None and w.clock.now > idle_since.get(sock.id, w.clock.now) + cfg["keepalive_expiry"]
+                        srv = bool(getattr(sock.peer, "server_closed", False))
+                        idle_socks[sock.id] = {"host": sock.target[1], "expired": exp, "server_closed": srv, "h2": cfg["h2"]}
+                nreq_before = {id(p): len(getattr(p, "requests", None) or getattr(p, "reqs", {})) for p in w.peers}
+                kind, detail = w.do(op)
+                after = w.snapshot()
+                # who served the request?
+                served_by = None
+                for s in w.net.sockets:
+                    p = s.peer
+                    n = len(getattr(p, "requests", None) if hasattr(p, "requests") else getattr(p, "reqs", {}))
+                    if n > nreq_before.get(id(p), 0):
+                        served_by = s.id
+                closed_now = [sid for sid in socks_before if not w.net.sockets[sid].open]
+                # idle bookkeeping
+                for c in w.pool.connections:
+                    inner = getattr(c, "_connection", None)
+                    if inner is not None:
+                        sock = inner._network_stream.get_extra_info("sim_socket")
+                        if c.is_idle():
+                            idle_since.setdefault(sock.id, w.clock.now)
+                        else:
+                            idle_since.pop(sock.id, None)
+                if served_by is not None and op[0] in ("req",):
+                    idle_since[served_by] = w.clock.now
+                if op[0] in ("read_close", "close"):
+                    for c in w.pool.connections:
+                        inner = getattr(c, "_connection", None)
+                        if inner is not None and c.is_idle():
+                            sock = inner._network_stream.get_extra_info("sim_socket")
+                            if sock.id not in idle_socks:
+                                idle_since[sock.id] = w.clock.now
+                trace.append({"op": list(op), "result": kind, "before": before, "after": after, "idle_socks": idle_socks,
+                              "served_by": served_by, "closed_now": closed_now, "eff_mk": eff_mk,
+                              "idle_after": sum(1 for c in w.pool.connections if c.is_idle()),
+                              "body_ok": (detail.get("body") == b"echo:/" + detail["url"].rsplit("/", 1)[1].encode() + b":") if "body" in detail and "url" in detail else None})
+    return trace
+
+
+def run_scenarios(ctx, rec):
+    rng = ctx.rng
+    n = 250 if ctx.quick else 4000
+    for _ in range(n):
+        cfg, ops = gen_scenario(rng)
+        trace = run_scenario(cfg, ops)
+        rec.evals += 1
+        rec.distinct.add(repr((cfg, ops)))
+        rec.dist["scenario:" + ("h2" if cfg["h2"] else "h1")] += 1
+        payload = {"cfg": cfg, "ops": [list(o) for o in ops]}
+        for i, t in enumerate(trace):
+            p = dict(payload, step=i, step_record={k: v for k, v in t.items() if k not in ("before",)})
+            op = t["op"]
+            host = f"o{op[1]}.example" if op[0] in ("req", "open") else None
+            if t["idle_after"] > t["eff_mk"]:
+                rec.fail("idle-above-keepalive-limit", {"level": "scenario"}, p)
+            if op[0] in ("req", "open") and t["result"] == "ok":
+                usable = [sid for sid, s in t["idle_socks"].items() if s["host"] == host and not s["expired"] and not (s["server_closed"] and not s["h2"])]
+                grew = t["after"]["connects"].get(host, 0) > t["before"]["connects"].get(host, 0)
+                if usable and grew:
+                    rec.fail("idle-connection-not-reused", {"proto": "h2" if cfg["h2"] else "h1"}, p)
+                if t["served_by"] in t["idle_socks"]:
+                    s = t["idle_socks"][t["served_by"]]
+                    if s["expired"] or (s["server_closed"] and not s["h2"]):
+                        rec.fail("expired-or-server-closed-connection-used", {"why": "expired" if s["expired"] else "server-closed"}, p)
+                rec.dist["reuse" if t["served_by"] in t["idle_socks"] else "new-connection"] += 1
+            if op[0] in ("req", "open") and t["result"].startswith("error") and not cfg["h2"]:
+                # a request must not fail because it was put on a dead (expired / server-closed) HTTP/1.1 connection
+                dead = [sid for sid, s in t["idle_socks"].items() if s["host"] == host and (s["expired"] or s["server_closed"])]
+                if dead and t["result"] != "error:PoolTimeout":
+                    rec.fail("expired-or-server-closed-connection-used", {"why": "request-failed"}, p)
+            # every idle connection closed during this step needs a reason
+            for sid in t["closed_now"]:
+                s = t["idle_socks"].get(sid)
+                if s is None or op[0] == "poolclose":
+                    continue
+                created = sum(t["after"]["connects"].values()) > sum(t["before"]["connects"].values())
+                full = len(t["before"]["conns"]) >= cfg["max_connections"]
+                becomes_idle = op[0] in ("req", "read_close", "close", "open")
+                reasons = [s["expired"], s["server_closed"], created and full,
+                           len(t["idle_socks"]) + (1 if becomes_idle else 0) > t["eff_mk"]]
+                if not any(reasons):
+                    rec.fail("closed-without-reason", {"level": "scenario"}, p)
+            if t["body_ok"] is False:
+                rec.fail("wrong-response", {}, p)
+        if len(rec.samples) < 5 and len(ops) > 6:
+            rec.samples.append({"cfg": cfg, "ops": [list(o) for o in ops][:8], "connects_at_end": trace[-1]["after"]["connects"]})
 
 
 replay = propbase.default_replay
